@@ -61,14 +61,15 @@ orc_x86_use_long_jumps (OrcX86Target *t, OrcCompiler *c)
 static void
 orc_x86_compiler_max_loop_shift (OrcX86Target *t, OrcCompiler *c)
 {
-  int i;
-  int n = 2;
+  int i = 0;
+  int n = t->register_size / c->max_var_size;
 
-  for (i = 1; i; i++) {
-    if ((t->register_size / c->max_var_size) == n)
-      break;
-    n *= 2;
-  } 
+  /* log2 of the number of elements per register; 0 when a variable is as
+   * wide as (or wider than) the register */
+  while (n > 1) {
+    n >>= 1;
+    i++;
+  }
   c->loop_shift = i;
 }
 
